@@ -456,6 +456,9 @@ std::string localise(const std::string &a, const std::string &b, std::string *li
             if (ga && gb && kind == "eq" && stripFrom(la, " mapping_id=") == stripFrom(lb, " mapping_id=")) {
                 return "equivalence-ids";
             }
+            if (kind.rfind("variable=", 0) == 0 || kind.rfind("test_variable=", 0) == 0) {
+                return "reset-variable-target"; // which variable a reset refers to (own variable #i / detached / none)
+            }
             std::string kindB;
             if (gb) {
                 std::istringstream wb(lb);
